@@ -80,7 +80,16 @@ def oracle_read(data, widths):
 
 def gen_case(rng):
     n = rng.choice([0, 1, 2, 3, 4, 5, 8, 9, 16, 33])
-    data = bytes(rng.getrandbits(8) for _ in range(n))
+    if rng.random() < 0.35:
+        # long runs of set / clear bits around the fields (carries, sign extension and rounding show only there)
+        pat = rng.choice([b'\xff', b'\x00', b'\xff\xff\xff\xff\x00', b'\x80', b'\x7f', b'\xaa', b'\x01'])
+        data = bytearray((pat * (n + 1))[:n])
+        for _ in range(rng.choice([0, 0, 1, 2])):
+            if n:
+                data[rng.randrange(n)] = rng.getrandbits(8)
+        data = bytes(data)
+    else:
+        data = bytes(rng.getrandbits(8) for _ in range(n))
     ws = []
     total = 0
     mode = rng.random()
